@@ -49,6 +49,9 @@ theorem Bnd_closed (B : Nat → Nat) : Closed (Bnd B) where
       omega
   crashed := fun e l h => ⟨⟨h.1.park, h.1.specs, h.1.held⟩, h.2⟩
   cancels := fun e l h => ⟨⟨h.1.park, h.1.specs, h.1.held⟩, h.2⟩
+  hookLate := fun e pid hook h => ⟨⟨h.1.park, h.1.specs, h.1.held⟩, h.2⟩
+  hookEarly := fun e id hook h => ⟨⟨h.1.park, h.1.specs, h.1.held⟩, h.2⟩
+  level := fun e l h => ⟨⟨h.1.park, h.1.specs, h.1.held⟩, h.2⟩
   obs := fun e o ho h => ⟨⟨h.1.park, h.1.specs, h.1.held⟩, h.2⟩
 
 theorem Bnd_addObs (B : Nat → Nat) (e : Eff) (o : Obs) (h : Bnd B e) : Bnd B (addObs e o) :=
@@ -65,6 +68,20 @@ theorem Bnd_setProc (B : Nat → Nat) (e : Eff) (i : Nat) (x : Proc) (h : Bnd B 
 
 /-! ### `runSegment` in named pieces -/
 
+/-- `on_complete.clear()`: the hooks added in flight to the event of `pid` are taken out of the table -/
+def Eff.clearLate (e : Eff) (pid : Nat) : Eff :=
+  { e with ps := { e.ps with late := e.ps.late.filter (fun q => q.1 != pid) } }
+
+@[simp] theorem clearLate_specs (e : Eff) (i : Nat) : (e.clearLate i).specs = e.specs := rfl
+@[simp] theorem clearLate_cancels (e : Eff) (i : Nat) : (e.clearLate i).cancels = e.cancels := rfl
+@[simp] theorem clearLate_futs (e : Eff) (i : Nat) : (e.clearLate i).ps.futs = e.ps.futs := rfl
+@[simp] theorem clearLate_procs (e : Eff) (i : Nat) : (e.clearLate i).ps.procs = e.ps.procs := rfl
+@[simp] theorem clearLate_held (e : Eff) (i : Nat) : (e.clearLate i).ps.held = e.ps.held := rfl
+@[simp] theorem clearLate_obs (e : Eff) (i : Nat) : (e.clearLate i).ps.obs = e.ps.obs := rfl
+
+theorem Bnd_clearLate (B : Nat → Nat) (e : Eff) (i : Nat) (h : Bnd B e) : Bnd B (e.clearLate i) :=
+  ⟨⟨h.1.park, h.1.specs, h.1.held⟩, h.2⟩
+
 def segTerm (now : Nat) (e1 : Eff) (pid : Nat) (p1 : Proc) (rest : List Seg) : Term → Eff
   | .yieldD d => (e1.setProc pid { p1 with segs := rest }).push (contSpec p1 pid (now + d)) 0
   | .yieldF f =>
@@ -72,7 +89,8 @@ def segTerm (now : Nat) (e1 : Eff) (pid : Nat) (p1 : Proc) (rest : List Seg) : T
     let e3 := e2.setFut f { futGet e2.ps.futs f with parked := some pid }
     if (futGet e2.ps.futs f).resolved then resumeParked e3 now f else e3
   | .ret =>
-    runHooks now (addObs (e1.setProc pid { p1 with segs := [], done := true, hooks := [] }) (.finish now pid)) p1.hooks
+    runHooks now (addObs ((e1.setProc pid { p1 with segs := [], done := true, hooks := [] }).clearLate pid) (.finish now pid))
+      (p1.hooks ++ lateOf e1.ps pid)
 
 /-- state in which the actions of the segment start: resume logged, `send` consumed -/
 def segStart (now : Nat) (e : Eff) (pid tag : Nat) (p : Proc) : Eff :=
@@ -204,8 +222,9 @@ theorem segTerm_bnd (B : Nat → Nat) (now : Nat) (e1 : Eff) (pid : Nat) (p1 : P
         omega
   | ret =>
     simp only [segTerm]
-    have h2 := Bnd_addObs B _ (.finish now pid) (Bnd_setProc B e1 pid { p1 with segs := [], done := true, hooks := [] } h)
-    have h3 := runHooks_closed (Bnd_closed B) now p1.hooks _ h2
+    have h2 := Bnd_addObs B _ (.finish now pid)
+      (Bnd_clearLate B _ pid (Bnd_setProc B e1 pid { p1 with segs := [], done := true, hooks := [] } h))
+    have h3 := runHooks_closed (Bnd_closed B) now (p1.hooks ++ lateOf e1.ps pid) _ h2
     refine ⟨h3.1, ?_, fun _ => h3.2⟩
     intro q
     have := h3.2 q
@@ -269,6 +288,9 @@ theorem ProcsAre_closed (L : List Proc) : Closed (ProcsAre L) where
   release := fun e i sp h hm => h
   crashed := fun e l h => h
   cancels := fun e l h => h
+  hookLate := fun e pid hook h => h
+  hookEarly := fun e id hook h => h
+  level := fun e l h => h
   obs := fun e o ho h => h
 
 theorem ProcsAre_length {L : List Proc} {e : Eff} (h : ProcsAre L e) : e.ps.procs.length = L.length := by
